@@ -358,9 +358,9 @@ def run(ctx):
     ctx.do(c10.r10_7)
     from . import c02 as _c02
     ctx.do(_c02.r2_1)  # a delivered message gets a fresh UID (next_uid never steps back)
-    ctx.do(_c04.r4_11)  # .mh_sequences stays readable: no flag name breaks its line format
     from . import c04 as _c04
     ctx.do(_c04.r4_3)  # Seen / unseen stay complements through every flag helper
+    ctx.do(_c04.r4_11)  # .mh_sequences stays readable: no flag name breaks its line format
     ctx.note("periodic poll liveness (clean-up before the emptiness test of executing_tasks) is decided by C10 R10.7")
     for k, v in WRITEBACK_EXEMPT.items():
         ctx.trust(f"frozen write-back exemption: {k} - {v}")
